@@ -123,7 +123,7 @@ theorem callee_side_requires_lock :
     two-qubit gate with all its merge cases -/
 def wellFormedOps : List String :=
   ["_single_gate", "remote_apply_X", "remote_apply_Y", "remote_apply_Z", "remote_apply_H", "remote_apply_K",
-   "remote_apply_T", "remote_apply_rotation",
+   "remote_apply_S", "remote_apply_T", "remote_apply_rotation",
    "remote_new_qubit", "remote_new_qubit_inreg", "remote_add_qubit",
    "remote_send_qubit", "remote_netqasm_send_qubit", "remote_netqasm_send_epr_half", "remote_transfer_qubit",
    "_remove_sim_qubit", "remote_remove_sim_qubit_num", "remote_get_register_del",
